@@ -4,6 +4,7 @@ use std::path::Path;
 use globset::{Glob, GlobSet, GlobSetBuilder};
 
 use crate::error::{Result, SlocGuardError};
+use crate::output::path::normalize_for_matching;
 
 pub trait FileFilter {
     fn should_include(&self, path: &Path) -> bool;
@@ -52,7 +53,7 @@ impl GlobFilter {
     }
 
     fn is_excluded(&self, path: &Path) -> bool {
-        self.exclude_patterns.is_match(path)
+        self.exclude_patterns.is_match(normalize_for_matching(path))
     }
 }
 
